@@ -1,11 +1,15 @@
 package main
 
-// One long-lived solver process per worker (z3 -in), driven with push/pop.
+// Solver access. Every query is a conjunction of terms (a slice of the path condition plus the formula of
+// interest). Small bit-vector queries go to one long-lived incremental z3 process (push / assert / check /
+// pop); floating-point queries and anything the incremental core does not settle within its short timeout go
+// to a fresh one-shot process, where z3 applies its full preprocessing and bit-blasting tactic. In
+// integer-arithmetic mode equivalent scripts are raced on several back ends.
 
 import (
 	"bufio"
-	"fmt"
 	"context"
+	"fmt"
 	"io"
 	"os"
 	"os/exec"
@@ -34,18 +38,17 @@ type SolverStats struct {
 }
 
 type Solver struct {
-	name     string
-	argv     []string
-	cmd      *exec.Cmd
-	in       io.WriteCloser
-	out      *bufio.Reader
-	declared map[string]*Term
-	declLog  []string
-	stack    [][]string // assertion text per level
-	Stats    SolverStats
-	timeout  int // ms (incremental core)
+	name        string
+	argv        []string
+	cmd         *exec.Cmd
+	in          io.WriteCloser
+	out         *bufio.Reader
+	declared    map[string]*Term
+	Stats       SolverStats
+	timeout     int // ms (incremental core)
 	hardTimeout int // ms (one-shot)
-	lastErr  string
+	lastErr     string
+	level       int
 }
 
 func NewSolver(kind string, timeoutMs int) *Solver {
@@ -53,18 +56,7 @@ func NewSolver(kind string, timeoutMs int) *Solver {
 	if timeoutMs < s.timeout {
 		s.timeout = timeoutMs
 	}
-	switch kind {
-	case "z3":
-		s.argv = []string{"z3", "-in"}
-	case "z3-new":
-		s.argv = []string{"z3-new", "-in"}
-	case "cvc5":
-		s.argv = []string{"cvc5", "--incremental", "--lang=smt2", fmt.Sprintf("--tlimit-per=%d", timeoutMs)}
-	case "cvc5-int":
-		s.argv = []string{"cvc5", "--incremental", "--lang=smt2", "--solve-bv-as-int=sum", fmt.Sprintf("--tlimit-per=%d", timeoutMs)}
-	default:
-		panic("unknown solver " + kind)
-	}
+	s.argv = []string{"z3", "-in"}
 	s.start()
 	return s
 }
@@ -86,14 +78,9 @@ func (s *Solver) start() {
 		panic(err)
 	}
 	s.declared = map[string]*Term{}
-	s.declLog = nil
-	s.stack = [][]string{nil}
+	s.level = 0
 	s.send("(set-option :global-declarations true)")
-	if strings.HasPrefix(s.name, "z3") {
-		s.send(fmt.Sprintf("(set-option :timeout %d)", s.timeout))
-	} else {
-		s.send("(set-logic ALL)")
-	}
+	s.send(fmt.Sprintf("(set-option :timeout %d)", s.timeout))
 	s.send("(set-option :produce-models true)")
 }
 
@@ -152,6 +139,8 @@ func (s *Solver) readSexp() string {
 	}
 }
 
+func declLine(v *Term) string { return fmt.Sprintf("(declare-const %s %s)", v.Name, v.S.String()) }
+
 func (s *Solver) declareVars(vars map[string]*Term) {
 	names := make([]string, 0, len(vars))
 	for n := range vars {
@@ -163,113 +152,142 @@ func (s *Solver) declareVars(vars map[string]*Term) {
 	for _, n := range names {
 		v := vars[n]
 		s.declared[n] = v
-		d := fmt.Sprintf("(declare-const %s %s)", n, v.S.String())
-		s.declLog = append(s.declLog, d)
-		s.send(d)
+		s.send(declLine(v))
 	}
 }
 
-func (s *Solver) Push() {
-	s.send("(push 1)")
-	s.stack = append(s.stack, nil)
-}
-func (s *Solver) Pop() {
-	s.send("(pop 1)")
-	s.stack = s.stack[:len(s.stack)-1]
-}
-func (s *Solver) Level() int { return len(s.stack) - 1 }
-func (s *Solver) PopTo(level int) {
-	for s.Level() > level {
-		s.Pop()
-	}
+// rendered caches the SMT-LIB text and variable set of a term.
+type rendered struct {
+	t     *Term
+	expr  string
+	vars  map[string]*Term
+	hasFP bool
+	hard  bool // multiplication / division with symbolic operands: bit-blasting back ends tend to time out
 }
 
-func (s *Solver) Assert(t *Term) {
-	if t.IsConst() && t.Bool() {
-		return
+func renderCached(cache map[*Term]*rendered, t *Term) *rendered {
+	if r, ok := cache[t]; ok {
+		return r
 	}
 	e, vars := Render(t)
-	s.declareVars(vars)
-	a := "(assert " + e + ")"
-	s.stack[len(s.stack)-1] = append(s.stack[len(s.stack)-1], a)
-	s.send(a)
+	r := &rendered{t: t, expr: e, vars: vars, hasFP: strings.Contains(e, "fp.") || strings.Contains(e, "to_fp")}
+	r.hard = strings.Contains(e, "bvmul") || strings.Contains(e, "bvsdiv") || strings.Contains(e, "bvudiv") ||
+		strings.Contains(e, "bvsrem") || strings.Contains(e, "bvurem")
+	cache[t] = r
+	return r
 }
 
-func (s *Solver) Check() Verdict {
-	t0 := time.Now()
+// bvScriptOf builds a standalone script for a conjunction.
+func bvScriptOf(conj []*rendered, vars []*Term) string {
+	var sb strings.Builder
+	decl := map[string]*Term{}
+	for _, c := range conj {
+		for n, v := range c.vars {
+			decl[n] = v
+		}
+	}
+	for _, v := range vars {
+		decl[v.Name] = v
+	}
+	names := make([]string, 0, len(decl))
+	for n := range decl {
+		names = append(names, n)
+	}
+	sort.Strings(names)
+	for _, n := range names {
+		sb.WriteString(declLine(decl[n]) + "\n")
+	}
+	for _, c := range conj {
+		sb.WriteString("(assert " + c.expr + ")\n")
+	}
+	sb.WriteString("(check-sat)\n")
+	if len(vars) > 0 {
+		sb.WriteString("(get-value (")
+		for _, v := range vars {
+			sb.WriteString(v.Name + " ")
+		}
+		sb.WriteString("))\n")
+	}
+	return sb.String()
+}
+
+// SolveConj decides a conjunction and returns values of vars when sat.
+func (s *Solver) SolveConj(conj []*rendered, vars []*Term) (vv Verdict, mm Model) {
+	fp := false
+	for _, c := range conj {
+		if c.hasFP {
+			fp = true
+		}
+	}
+	if os.Getenv("VERIF_QLOG") != "" {
+		t0 := time.Now()
+		defer func() {
+			fmt.Fprintf(os.Stderr, "QLOG solve %s %.2fs fp=%v conj=%d\n", vv, time.Since(t0).Seconds(), fp, len(conj))
+		}()
+	}
+	if !fp {
+		t0 := time.Now()
+		s.send("(push 1)")
+		for _, c := range conj {
+			s.declareVars(c.vars)
+			s.send("(assert " + c.expr + ")")
+		}
+		for _, v := range vars {
+			s.declareVars(map[string]*Term{v.Name: v})
+		}
+		v, bad := s.checkLine()
+		var m Model
+		if v == Sat && !bad {
+			m = s.model(vars)
+		}
+		s.send("(pop 1)")
+		s.Stats.Time += time.Since(t0)
+		if !bad && v != Unknown {
+			s.Stats.Queries++
+			if v == Sat {
+				s.Stats.Sat++
+			} else {
+				s.Stats.Unsat++
+			}
+			return v, m
+		}
+	}
+	return s.oneShotScriptWith("z3", bvScriptOf(conj, vars), len(vars) > 0)
+}
+
+// checkLine sends check-sat and reads the verdict; bad=true if any error line was seen.
+func (s *Solver) checkLine() (Verdict, bool) {
 	s.send("(check-sat)")
-	var v Verdict
+	bad := false
 	for {
 		l := s.readLine()
 		switch {
 		case l == "sat":
-			v = Sat
-			s.Stats.Sat++
+			return Sat, bad
 		case l == "unsat":
-			v = Unsat
-			s.Stats.Unsat++
+			return Unsat, bad
 		case l == "unknown" || l == "timeout":
-			v = Unknown
-			s.Stats.Unknown++
+			return Unknown, bad
 		case strings.HasPrefix(l, "(error"):
 			s.lastErr = l
 			s.Stats.Errors++
+			bad = true
 			if strings.Contains(l, "solver died") {
-				s.Stats.Unknown++
-				s.Stats.Queries++
-				s.Stats.Time += time.Since(t0)
-				return Unknown
+				s.Restart()
+				return Unknown, true
 			}
-			continue // treat the whole query as inconclusive below
 		case l == "" || strings.HasPrefix(l, ";") || strings.HasPrefix(l, "WARNING"):
-			continue
 		default:
 			s.lastErr = "unexpected solver output: " + l
 			s.Stats.Errors++
-			continue
+			bad = true
 		}
-		break
 	}
-	s.Stats.Queries++
-	s.Stats.Time += time.Since(t0)
-	if d := os.Getenv("VERIF_DUMP_SLOW"); d != "" && time.Since(t0) > 2*time.Second {
-		s.Stats.Errors += 0
-		var sb strings.Builder
-		for _, dl := range s.declLog {
-			sb.WriteString(dl + "\n")
-		}
-		for _, lvl := range s.stack {
-			for _, a := range lvl {
-				sb.WriteString(a + "\n")
-			}
-		}
-		sb.WriteString("(check-sat)\n")
-		dumpCounter++
-		os.WriteFile(fmt.Sprintf("%s/slow-%d-%d-%s-%.1fs.smt2", d, os.Getpid(), dumpCounter, v, time.Since(t0).Seconds()), []byte(sb.String()), 0o644)
-	}
-	return v
 }
 
-var dumpCounter int
-
-// CheckWith asserts extra in a fresh scope and checks.
-func (s *Solver) CheckWith(extra *Term) Verdict {
-	errs := s.Stats.Errors
-	s.Push()
-	s.Assert(extra)
-	v := s.Check()
-	s.Pop()
-	if s.Stats.Errors != errs {
-		return Unknown // any (error line makes the query inconclusive
-	}
-	return v
-}
-
-// Model fetches values of the given variables after a sat answer (must be called before pop).
-func (s *Solver) Model(vars []*Term) Model {
-	m := Model{}
+func (s *Solver) model(vars []*Term) Model {
 	if len(vars) == 0 {
-		return m
+		return Model{}
 	}
 	var sb strings.Builder
 	sb.WriteString("(get-value (")
@@ -279,42 +297,7 @@ func (s *Solver) Model(vars []*Term) Model {
 	}
 	sb.WriteString("))")
 	s.send(sb.String())
-	resp := s.readSexp()
-	// parse pairs (name value)
-	toks := tokenize(resp)
-	// expected: ( ( name val ) ( name val ) ... )
-	i := 0
-	if len(toks) == 0 || toks[0] != "(" {
-		return m
-	}
-	i = 1
-	for i < len(toks) && toks[i] == "(" {
-		name := toks[i+1]
-		i += 2
-		// value: atom or parenthesised
-		var val []string
-		if toks[i] == "(" {
-			d := 0
-			for {
-				val = append(val, toks[i])
-				if toks[i] == "(" {
-					d++
-				} else if toks[i] == ")" {
-					d--
-				}
-				i++
-				if d == 0 {
-					break
-				}
-			}
-		} else {
-			val = []string{toks[i]}
-			i++
-		}
-		i++ // closing paren of pair
-		m[name] = parseValue(val)
-	}
-	return m
+	return parseModel(s.readSexp())
 }
 
 func tokenize(s string) []string {
@@ -369,214 +352,6 @@ func parseValue(v []string) uint64 {
 	return 0
 }
 
-// Dump renders the current assertion stack plus an extra assertion as a standalone script.
-func (s *Solver) Dump(extra *Term) string {
-	var sb strings.Builder
-	e, vars := Render(extra)
-	s.declareVars(vars)
-	for _, d := range s.declLog {
-		sb.WriteString(d + "\n")
-	}
-	for _, lvl := range s.stack {
-		for _, a := range lvl {
-			sb.WriteString(a + "\n")
-		}
-	}
-	sb.WriteString("(assert " + e + ")\n(check-sat)\n")
-	return sb.String()
-}
-
-// RunScript runs a standalone script on another solver binary and returns its verdict.
-func RunScript(kind string, script string, timeoutMs int) Verdict {
-	var argv []string
-	pre := ""
-	switch kind {
-	case "z3":
-		argv = []string{"z3", "-in", fmt.Sprintf("-t:%d", timeoutMs)}
-	case "z3-new":
-		argv = []string{"z3-new", "-in", fmt.Sprintf("-t:%d", timeoutMs)}
-	case "cvc5":
-		argv = []string{"cvc5", "--lang=smt2", fmt.Sprintf("--tlimit=%d", timeoutMs)}
-		pre = "(set-logic ALL)\n"
-	case "cvc5-int":
-		argv = []string{"cvc5", "--lang=smt2", "--solve-bv-as-int=sum", fmt.Sprintf("--tlimit=%d", timeoutMs)}
-		pre = "(set-logic ALL)\n"
-	}
-	cmd := exec.Command(argv[0], argv[1:]...)
-	cmd.Stdin = strings.NewReader(pre + script)
-	out, _ := cmd.CombinedOutput()
-	txt := string(out)
-	if strings.Contains(txt, "(error") {
-		return Unknown
-	}
-	for _, l := range strings.Split(txt, "\n") {
-		l = strings.TrimSpace(l)
-		if l == "sat" {
-			return Sat
-		}
-		if l == "unsat" {
-			return Unsat
-		}
-	}
-	return Unknown
-}
-
-// ValueOf returns the value of a BV/Bool term in the current model (after a sat answer).
-func (s *Solver) ValueOf(t *Term) (uint64, bool) {
-	e, vars := Render(t)
-	s.declareVars(vars)
-	s.send("(get-value (" + e + "))")
-	resp := s.readSexp()
-	if strings.Contains(resp, "(error") {
-		return 0, false
-	}
-	toks := tokenize(resp)
-	// ( ( <expr...> value ) ) : the value is the last atom or parenthesised group before the final two parens
-	if len(toks) < 4 {
-		return 0, false
-	}
-	end := len(toks) - 2
-	// value may be an atom or (_ bvN w)
-	if toks[end-1] == ")" {
-		// find matching open
-		d := 0
-		i := end - 1
-		for ; i >= 0; i-- {
-			if toks[i] == ")" {
-				d++
-			} else if toks[i] == "(" {
-				d--
-				if d == 0 {
-					break
-				}
-			}
-		}
-		return parseValue(toks[i:end]), true
-	}
-	return parseValue(toks[end-1 : end]), true
-}
-
-func termHasFP(t *Term, seen map[*Term]bool) bool {
-	if seen[t] {
-		return false
-	}
-	seen[t] = true
-	if t.S.K == SFP {
-		return true
-	}
-	for _, a := range t.Args {
-		if termHasFP(a, seen) {
-			return true
-		}
-	}
-	return false
-}
-
-// script renders declarations and the whole assertion stack.
-func (s *Solver) script() string {
-	var sb strings.Builder
-	for _, d := range s.declLog {
-		sb.WriteString(d + "\n")
-	}
-	for _, lvl := range s.stack {
-		for _, a := range lvl {
-			sb.WriteString(a + "\n")
-		}
-	}
-	return sb.String()
-}
-
-// Solve decides PC ∧ extra and returns a model of the given variables when sat.
-// Bit-vector-only problems go to the incremental process first (fast on small queries) under a short
-// timeout; floating-point problems and anything the incremental core does not settle quickly are sent to a
-// fresh one-shot process, where z3 applies its full preprocessing/bit-blasting tactic.
-func (s *Solver) Solve(extra *Term, vars []*Term) (Verdict, Model) {
-	s.Push()
-	defer s.Pop()
-	if extra != nil {
-		s.Assert(extra)
-	}
-	for _, v := range vars {
-		s.declareVars(map[string]*Term{v.Name: v})
-	}
-	if !s.hasFP() {
-		errs := s.Stats.Errors
-		v := s.Check()
-		if s.Stats.Errors != errs {
-			v = Unknown
-		}
-		if v == Sat {
-			return v, s.Model(vars)
-		}
-		if v == Unsat {
-			return v, nil
-		}
-		s.Stats.Unknown-- // re-decided below
-		s.Stats.Queries--
-	}
-	return s.oneShot(vars)
-}
-
-func (s *Solver) hasFP() bool {
-	for _, lvl := range s.stack {
-		for _, a := range lvl {
-			if strings.Contains(a, "fp.") || strings.Contains(a, "to_fp") {
-				return true
-			}
-		}
-	}
-	return false
-}
-
-func (s *Solver) oneShot(vars []*Term) (Verdict, Model) {
-	var sb strings.Builder
-	sb.WriteString(s.script())
-	sb.WriteString("(check-sat)\n")
-	if len(vars) > 0 {
-		sb.WriteString("(get-value (")
-		for _, v := range vars {
-			sb.WriteString(v.Name + " ")
-		}
-		sb.WriteString("))\n")
-	}
-	return s.oneShotScript(sb.String(), len(vars) > 0)
-}
-
-func (s *Solver) oneShotScript(script string, wantModel bool) (Verdict, Model) {
-	return s.oneShotScriptWith("z3", script, wantModel)
-}
-
-func (s *Solver) oneShotScriptWith(bin string, script string, wantModel bool) (Verdict, Model) {
-	t0 := time.Now()
-	cmd := exec.Command(bin, "-in", fmt.Sprintf("-t:%d", s.hardTimeout))
-	cmd.Stdin = strings.NewReader(script)
-	out, _ := cmd.CombinedOutput()
-	txt := string(out)
-	s.Stats.Queries++
-	s.Stats.OneShot++
-	s.Stats.Time += time.Since(t0)
-	lines := strings.SplitN(txt, "\n", 2)
-	first := strings.TrimSpace(lines[0])
-	switch first {
-	case "unsat":
-		s.Stats.Unsat++
-		return Unsat, nil
-	case "sat":
-		s.Stats.Sat++
-		m := Model{}
-		if wantModel && len(lines) > 1 {
-			m = parseModel(lines[1])
-		}
-		return Sat, m
-	}
-	if strings.Contains(txt, "(error") {
-		s.lastErr = first
-		s.Stats.Errors++
-	}
-	s.Stats.Unknown++
-	return Unknown, nil
-}
-
 func parseModel(resp string) Model {
 	m := Model{}
 	toks := tokenize(resp)
@@ -584,13 +359,13 @@ func parseModel(resp string) Model {
 		return m
 	}
 	i := 1
-	for i < len(toks) && toks[i] == "(" {
+	for i+1 < len(toks) && toks[i] == "(" {
 		name := toks[i+1]
 		i += 2
 		var val []string
 		if toks[i] == "(" {
 			d := 0
-			for {
+			for i < len(toks) {
 				val = append(val, toks[i])
 				if toks[i] == "(" {
 					d++
@@ -610,6 +385,86 @@ func parseModel(resp string) Model {
 		m[name] = parseValue(val)
 	}
 	return m
+}
+
+func (s *Solver) oneShotScriptWith(bin string, script string, wantModel bool) (Verdict, Model) {
+	t0 := time.Now()
+	ctx, cancel := context.WithTimeout(context.Background(), time.Duration(s.hardTimeout+3000)*time.Millisecond)
+	defer cancel()
+	cmd := exec.CommandContext(ctx, bin, "-in", fmt.Sprintf("-t:%d", s.hardTimeout))
+	cmd.Stdin = strings.NewReader(script)
+	out, _ := cmd.CombinedOutput()
+	txt := string(out)
+	s.Stats.Queries++
+	s.Stats.OneShot++
+	s.Stats.Time += time.Since(t0)
+	if d := os.Getenv("VERIF_DUMP_SLOW"); d != "" && time.Since(t0) > 3*time.Second {
+		dumpCounter++
+		os.WriteFile(fmt.Sprintf("%s/oneshot-%d-%d-%.1fs.smt2", d, os.Getpid(), dumpCounter, time.Since(t0).Seconds()), []byte(script), 0o644)
+	}
+	lines := strings.SplitN(txt, "\n", 2)
+	first := strings.TrimSpace(lines[0])
+	switch first {
+	case "unsat":
+		if strings.Contains(txt, "(error") && !benignErrors(txt, Unsat) {
+			break
+		}
+		s.Stats.Unsat++
+		return Unsat, nil
+	case "sat":
+		if strings.Contains(txt, "(error") {
+			break
+		}
+		s.Stats.Sat++
+		m := Model{}
+		if wantModel && len(lines) > 1 {
+			m = parseModel(lines[1])
+		}
+		return Sat, m
+	}
+	if strings.Contains(txt, "(error") {
+		s.lastErr = first
+		s.Stats.Errors++
+	}
+	s.Stats.Unknown++
+	return Unknown, nil
+}
+
+var dumpCounter int
+
+// RunScript runs a standalone script on another solver binary and returns its verdict.
+func RunScript(kind string, script string, timeoutMs int) Verdict {
+	var argv []string
+	pre := ""
+	switch kind {
+	case "z3":
+		argv = []string{"z3", "-in", fmt.Sprintf("-t:%d", timeoutMs)}
+	case "z3-new":
+		argv = []string{"z3-new", "-in", fmt.Sprintf("-t:%d", timeoutMs)}
+	case "cvc5":
+		argv = []string{"cvc5", "--lang=smt2", fmt.Sprintf("--tlimit=%d", timeoutMs)}
+		pre = "(set-logic ALL)\n"
+	case "cvc5-int":
+		argv = []string{"cvc5", "--lang=smt2", "--solve-bv-as-int=sum", fmt.Sprintf("--tlimit=%d", timeoutMs)}
+		pre = "(set-logic ALL)\n"
+	}
+	ctx, cancel := context.WithTimeout(context.Background(), time.Duration(timeoutMs+3000)*time.Millisecond)
+	defer cancel()
+	cmd := exec.CommandContext(ctx, argv[0], argv[1:]...)
+	cmd.Stdin = strings.NewReader(pre + script)
+	out, _ := cmd.CombinedOutput()
+	txt := string(out)
+	first := strings.TrimSpace(strings.SplitN(txt, "\n", 2)[0])
+	if strings.Contains(txt, "(error") && !(first == "unsat" && benignErrors(txt, Unsat)) {
+		return Unknown
+	}
+	switch first {
+	case "sat":
+		return Sat
+	case "unsat":
+		return Unsat
+	}
+	return Unknown
 }
 
 type racer struct {
@@ -679,21 +534,6 @@ func (s *Solver) race(rs []racer, wantModel bool, timeout time.Duration) (Verdic
 		s.Stats.Unknown++
 	}
 	return out.v, out.m, out.name
-}
-
-// bvScript renders the stack (plus declarations for vars) with a get-value request.
-func (s *Solver) bvScript(vars []*Term) string {
-	var sb strings.Builder
-	sb.WriteString(s.script())
-	sb.WriteString("(check-sat)\n")
-	if len(vars) > 0 {
-		sb.WriteString("(get-value (")
-		for _, v := range vars {
-			sb.WriteString(v.Name + " ")
-		}
-		sb.WriteString("))\n")
-	}
-	return sb.String()
 }
 
 // benignErrors: after an unsat answer the only acceptable error is the refused get-value.
